@@ -74,7 +74,7 @@ impl Family for B3 {
         &["C14", "C17", "C07"]
     }
     fn budget(&self, tier: Tier, p: &str) -> u64 {
-        let q = if p == "C14" { 90 } else { 40 };
+        let q = if p == "C14" { 90 } else { 20 };
         q * match tier {
             Tier::Quick => 1,
             Tier::Thorough => 15,
